@@ -23,7 +23,7 @@ def _who(w):
     if w == "nr":
         return "WNoRoute"
     if len(w) > 1 and w[0] == "r" and w[1:].isdigit():
-        return "(WRoute %s)" % w[1:]
+        return "(WRoute %s%%nat)" % w[1:]
     return "WBad"
 
 
@@ -32,7 +32,7 @@ def c04_casesv(lines):
     for l in lines:
         routes, reg, names, reqs = _parse(l)
         rs = "[" + "; ".join("(%s, %s)" % (coq_bytes(p), coq_bytes(m)) for p, m in routes) + "]"
-        rg = "None" if reg == "ok" else "(Some %s)" % reg[3:]
+        rg = "None" if reg == "ok" else "(Some %s%%nat)" % reg[3:]
         ns = "[" + "; ".join(coq_bytes(n) for n in names) + "]"
         qs = "[" + ";\n     ".join(
             "mkq %s %s %s %s [%s]" % (coq_bytes(p), coq_bytes(m), _who(w), coq_bytes(a), "; ".join(coq_bytes(v) for v in vals))
